@@ -201,7 +201,8 @@ def run_fd_nd(ctx):
                     try:
                         out = np.full(shape, complex(np.nan, np.nan) if f.dtype.kind == 'c' else np.nan, dtype=f.dtype, order=order)
                         r = diff_ops.finite_diff(f, axis, dx=dx, method=method, pad_mode=mode, pad_const=pad_const, out=out)
-                        r2 = diff_ops.finite_diff(f, axis, dx=dx, method=method, pad_mode=mode, pad_const=pad_const)
+                        # the out-of-place twin names the axis from the end (NumPy convention) in the Fortran-ordered half
+                        r2 = diff_ops.finite_diff(f, axis - len(shape) if cplx else axis, dx=dx, method=method, pad_mode=mode, pad_const=pad_const)
                     except Exception as e:
                         ctx.violation(comp, cfg, 'raises:' + type(e).__name__, message=str(e)[:200], shape=shape, axis=axis)
                         continue
